@@ -880,10 +880,6 @@ impl CodegenContext {
                                     offset += 256;
                                 }
                                 offset as i64
-                            } else if target_pc == 0 {
-                                // We probably couldn't determine the target_pc, so let's ignore the error for now.
-                                // We'll just return a dummy offset. This instruction will be re-emitted in a next pass anyway.
-                                0
                             } else {
                                 return Err(Diagnostic::error()
                                     .with_message(format!(
